@@ -182,6 +182,10 @@ pub struct ScenarioH {
     /// retried after the backoff
     #[serde(default)]
     pub poisoned_resnapshot: bool,
+    /// how many re-initialisations in a row fail after each dropped account connection (0 = 1);
+    /// 12 outlasts the whole backoff ladder (125 ms doubling up to its 60 s cap)
+    #[serde(default)]
+    pub poison_len: u8,
 }
 
 fn cid(ord: usize) -> String {
@@ -351,12 +355,16 @@ fn run_system(sc: &ScenarioH, w: &WorldH) -> Result<RunOut, String> {
                 UnindexedAccountSnapshot { exchange: ex.value, balances: vec![], instruments: listed },
             );
             let mut q = VecDeque::from([tx]);
+            let poison_len = sc.poison_len.max(1) as u64;
             for d in 0..n_drops[e] {
                 q.push_back(client.add_connection());
                 if sc.poisoned_resnapshot {
-                    // call 1 is the initial snapshot; each drop costs two calls, the first poisoned
-                    client.0.poisoned_snapshot_calls.lock().unwrap().push(2 + 2 * d as u64);
-                    q.push_back(client.add_connection());
+                    // call 1 is the initial snapshot; each drop costs poison_len + 1 calls, all but the
+                    // last poisoned; every failed attempt uses up a connection
+                    for j in 0..poison_len {
+                        client.0.poisoned_snapshot_calls.lock().unwrap().push(2 + (poison_len + 1) * d as u64 + j);
+                        q.push_back(client.add_connection());
+                    }
                 }
             }
             let t = Duration::from_millis(timeout);
@@ -603,13 +611,17 @@ fn run_system(sc: &ScenarioH, w: &WorldH) -> Result<RunOut, String> {
                     }
                 }
                 KindH::AcctDrop { ex } => {
-                    if *ex >= w.n_ex || conns[*ex].len() < (if sc.poisoned_resnapshot { 3 } else { 2 }) || !linked(*ex) {
+                    let poison_len = sc.poison_len.max(1) as usize;
+                    if *ex >= w.n_ex || conns[*ex].len() < (if sc.poisoned_resnapshot { 2 + poison_len } else { 2 }) || !linked(*ex) {
                         continue;
                     }
                     conns[*ex].pop_front();
                     if sc.poisoned_resnapshot {
-                        // (the connection taken by the failed re-initialisation is lost as well)
-                        conns[*ex].pop_front();
+                        // (the connections taken by the failed re-initialisations are lost as well)
+                        for _ in 0..poison_len {
+                            conns[*ex].pop_front();
+                        }
+
                     }
                     account_drops[*ex] += 1;
                     drop_instants.push((*ex, now as u64));
@@ -824,6 +836,23 @@ fn is_open_response(o: &OrderState) -> bool {
     }
 }
 
+impl ScenarioH {
+    /// An outage that outlasts the backoff ladder takes about four minutes of virtual time: whatever
+    /// the scenario does after a dropped account connection is moved behind it.
+    fn shifted_for_long_outage(mut self) -> Self {
+        if self.poisoned_resnapshot && self.poison_len >= 10 {
+            let mut shift = 0u64;
+            for st in self.steps.iter_mut() {
+                st.at_ms += shift;
+                if matches!(st.kind, KindH::AcctDrop { .. }) {
+                    shift += 300_000;
+                }
+            }
+        }
+        self
+    }
+}
+
 impl Sim for SimH {
     type Scenario = ScenarioH;
 
@@ -984,11 +1013,14 @@ impl Sim for SimH {
         }
         let refuse_opens = if rng.chance(1, 3) { vec![rng.usize(n_ord)] } else { vec![] };
         let refuse_cancels = if rng.chance(1, 4) { vec![rng.usize(n_ord)] } else { vec![] };
+        // drawn here so that earlier draws stay what they were
+        let tokio_seed = rng.next_u64();
+        let trading_enabled_at_start = rng.chance(3, 4);
         ScenarioH {
-            tokio_seed: rng.next_u64(),
+            tokio_seed,
             timeout_ms,
             inst_per_ex,
-            trading_enabled_at_start: rng.chance(3, 4),
+            trading_enabled_at_start,
             ords,
             steps,
             batches,
@@ -1005,7 +1037,9 @@ impl Sim for SimH {
             generic_client: rng.chance(1, 3),
             derivs: self.prop == PropH::C15 && rng.chance(1, 2),
             poisoned_resnapshot: faulty && rng.chance(1, 4),
+            poison_len: *rng.pick(&[1u8, 1, 1, 2, 12]),
         }
+        .shifted_for_long_outage()
     }
 
     fn execute(&self, sc: &ScenarioH, ctx: &ExecCtx<'_>) -> Outcome {
@@ -1085,6 +1119,9 @@ impl Sim for SimH {
             }
             if sc.poisoned_resnapshot && out.account_drops.iter().any(|d| *d > 0) {
                 stats.fault("account_reinitialisation_fails_once");
+                if sc.poison_len >= 10 {
+                    stats.fault("account_outage_outlasts_backoff_ladder");
+                }
             }
             if out.engine_died {
                 stats.probe("engine_stopped_on_fatal_error");
@@ -2206,6 +2243,7 @@ impl Sim for SimH {
             "exchange_without_execution_link",
             "market_item_lagging",
             "account_reinitialisation_fails_once",
+            "account_outage_outlasts_backoff_ladder",
         ]
     }
     fn probe_kinds(&self) -> Vec<&'static str> {
